@@ -35,14 +35,17 @@
 # define UNPOISON(p, n) ((void) 0)
 #endif
 
+#include <sys/uio.h>
+
 #include "meta.h"
 #include "node.h"
+#include "io.h"
 #include "vf.h"
 
 const char *vf_name = "c14_cxx";
 
 #define MAXN   128
-#define MAXM   128
+#define MAXM   224
 #define NSLOT  48
 #define LIVE_MAX 20
 #define GMAX   2048
@@ -59,7 +62,7 @@ static const char *K(const char *op, const char *what)
 class hmeta : public mpt::metatype
 {
 public:
-	hmeta() : used(0), refs(0), finals(0), holders(0), vlen(0) { val[0] = 0; }
+	hmeta() : used(0), refs(0), finals(0), holders(0), vlen(0), clone_of(-1) { val[0] = 0; }
 	int convert(mpt::type_t type, void *ptr) __MPT_OVERRIDE
 	{
 		if (!type) {
@@ -78,8 +81,8 @@ public:
 		if (!used || finals) vf_fail(K(cur_op, "addref-of-released-value"), "addref on a released value");
 		return (uintptr_t) ++refs;
 	}
-	mpt::metatype *clone() const __MPT_OVERRIDE { return 0; }
-	int used, refs, finals, holders, vlen;
+	mpt::metatype *clone() const __MPT_OVERRIDE;
+	int used, refs, finals, holders, vlen, clone_of;
 	char val[8];
 };
 static hmeta metas[MAXM];
@@ -92,11 +95,23 @@ void hmeta::unref()
 	vf_count("witness:unref", 1);
 	if (!--refs) ++finals;
 }
+mpt::metatype *hmeta::clone() const
+{
+	int id = (int) (this - metas);
+	if (id < 0 || id >= nmetas || !used || finals) vf_fail(K(cur_op, "clone-of-released-value"), "clone called on an object that is no live harness value");
+	if (nmetas >= MAXM) vf_inconclusive("value table exhausted");
+	hmeta *m = &metas[nmetas++];
+	m->used = 1; m->refs = 1; m->finals = 0; m->holders = 0; m->clone_of = id;
+	m->vlen = vlen;
+	memcpy(m->val, val, sizeof(val));
+	vf_count("witness:clone", 1);
+	return m;
+}
 static int meta_new(vf_rng *r)
 {
 	if (nmetas >= MAXM) vf_inconclusive("value table exhausted");
 	hmeta *m = &metas[nmetas];
-	m->used = 1; m->refs = 1; m->finals = 0; m->holders = 0;
+	m->used = 1; m->refs = 1; m->finals = 0; m->holders = 0; m->clone_of = -1;
 	m->vlen = 1 + (int) vf_below(r, 6);
 	for (int i = 0; i < m->vlen; i++) m->val[i] = (char) ('A' + vf_below(r, 26));
 	m->val[m->vlen] = 0;
@@ -110,6 +125,9 @@ struct hnode {
 	mpt::node *n;
 	int alive, kind, meta;
 	int par, grp;
+	mpt::metatype *lib;                 /* value made by the library (no release witness: LSan) */
+	mpt::io::buffer::metatype *buf;     /* ... when it is a buffer value */
+	int open;                           /* ... with an entry that is not terminated yet */
 };
 static hnode N[MAXN];
 static int nn, next_grp, nslots;
@@ -147,7 +165,7 @@ static int heap_below(int i)
 static int slot_new(mpt::node *n, int kind, int meta)
 {
 	if (nn >= MAXN) vf_inconclusive("node table exhausted");
-	N[nn].n = n; N[nn].alive = 1; N[nn].kind = kind; N[nn].meta = meta;
+	N[nn].n = n; N[nn].alive = 1; N[nn].kind = kind; N[nn].meta = meta; N[nn].lib = 0; N[nn].buf = 0; N[nn].open = 0;
 	N[nn].par = -1; N[nn].grp = next_grp++;
 	if (meta >= 0) metas[meta].holders++;
 	return nn++;
@@ -190,7 +208,7 @@ static void check_all(const char *op)
 			if (l[k] && idx_of(l[k]) < 0)
 				vf_fail(K(op, "dangling-link"), "%s node %d: %s = %p is no live node (destroyed or foreign object)", kname[N[i].kind], i, ln[k], (const void *) l[k]);
 		if (n->next == n || n->prev == n || n->parent == n || n->children == n) vf_fail(K(op, "self-link"), "node %d links to itself", i);
-		mpt::metatype *exp = N[i].meta >= 0 ? &metas[N[i].meta] : 0;
+		mpt::metatype *exp = N[i].meta >= 0 ? &metas[N[i].meta] : N[i].lib;
 		if (n->meta().instance() != exp) vf_fail(K(op, "value-replaced"), "node %d holds another value object than assigned", i);
 		visited[i] = 0; headof[i] = -1; hgrp[i] = -1;
 	}
@@ -236,6 +254,238 @@ static void model_destroy(const char *op, int root, int self)
 		N[j].alive = 0;
 		vf_count("monitor:release-witnessed", 1);
 	}
+}
+
+
+/* ------------------------------------------------------- library values */
+struct sig {
+	int rv, rs, ri;
+	size_t vlen;
+	uint8_t vec[640];
+	char str[640];
+	int32_t ival;
+};
+/* everything a reader can learn about the current value without changing it */
+static void signature(mpt::metatype *m, struct sig *s)
+{
+	using namespace mpt;   /* type macros expand to unqualified enumerators */
+	struct iovec v = { 0, 0 };
+	const char *t = 0;
+	memset(s, 0, sizeof(*s));
+	s->rv = m->convert(MPT_type_toVector('c'), &v) >= 0;
+	if (s->rv) { s->vlen = v.iov_len; if (v.iov_len) memcpy(s->vec, v.iov_base, v.iov_len < sizeof(s->vec) ? v.iov_len : sizeof(s->vec)); }
+	s->rs = m->convert('s', &t) >= 0 && t;
+	if (s->rs) snprintf(s->str, sizeof(s->str), "%s", t);
+	s->ri = m->convert('i', &s->ival) >= 0;
+	if (!s->ri) s->ival = 0;
+}
+static int sig_equal(const struct sig *a, const struct sig *b)
+{
+	return a->rv == b->rv && a->rs == b->rs && a->ri == b->ri && a->vlen == b->vlen
+	       && !memcmp(a->vec, b->vec, a->vlen < sizeof(a->vec) ? a->vlen : sizeof(a->vec)) && !strcmp(a->str, b->str) && a->ival == b->ival;
+}
+static const char *sig_show(const struct sig *s)
+{
+	static char b[2][120];
+	static int k;
+	char *d = b[k++ & 1];
+	snprintf(d, 120, "[raw %d:%zu bytes '%.20s' text %d:'%.20s' int %d:%d]", s->rv, s->vlen, s->rv ? (const char *) s->vec : "", s->rs, s->str, s->ri, (int) s->ival);
+	return d;
+}
+static void push_entry(mpt::io::buffer::metatype *b, vf_rng *r, int terminate)
+{
+	char e[12];
+	int l = 1 + (int) vf_below(r, 8);
+	for (int i = 0; i < l; i++) e[i] = (char) ('a' + vf_below(r, 26));
+	e[l] = 0;
+	if (b->push((size_t) l + 1, e) < 0) vf_fail(K(cur_op, "buffer-push-refused"), "push of an entry refused");
+	if (terminate && b->push(0, 0) < 0) vf_fail(K(cur_op, "buffer-push-refused"), "termination of an entry refused");
+}
+/* change the state of a buffer value: returns 0 when nothing could be done */
+static int consume(int ni, vf_rng *r)
+{
+	mpt::io::buffer::metatype *b = N[ni].buf;
+	switch (vf_below(r, 4)) {
+	case 0: case 1: vf_count("io::buffer::advance", 1); return b->advance() >= 0;
+	case 2: { char tmp[4]; vf_count("io::buffer::read", 1); return b->read(1 + vf_below(r, 3), tmp, 1) > 0; }
+	default: vf_count("io::buffer::push", 1); push_entry(b, r, 1); N[ni].open = 0; return 1;
+	}
+}
+/* set a value made by the library on node i */
+static void set_lib_value(vf_rng *r, int i)
+{
+	mpt::metatype *m = 0;
+	mpt::io::buffer::metatype *b = 0;
+	char text[320];
+	int kind = (int) vf_below(r, 8), open_entry = 0;
+	cur_op = "set_metatype";
+	if (kind == 0) {
+		int32_t v = (int32_t) vf_below(r, 100000) - 50000;
+		m = mpt::metatype::generic::create('i', &v);
+		if (m) vf_count("value:generic-int", 1);
+	}
+	if (kind == 1 || (kind == 0 && !m)) {
+		size_t l = vf_below(r, 12);
+		for (size_t k = 0; k < l; k++) text[k] = (char) ('a' + vf_below(r, 26));
+		text[l] = 0;
+		m = mpt::metatype::create(static_cast<const char *>(text), -1);
+		vf_count("value:small-text", 1);
+	}
+	else if (kind == 2) {
+		size_t l = 255 + vf_below(r, 50);
+		for (size_t k = 0; k < l; k++) text[k] = (char) ('A' + vf_below(r, 26));
+		text[l] = 0;
+		m = mpt::metatype::create(static_cast<const char *>(text), -1);
+		b = dynamic_cast<mpt::io::buffer::metatype *>(m);
+		vf_count("value:long-text", 1);
+		if (b && vf_chance(r, 1, 2)) { char tmp[8]; b->read(1 + vf_below(r, 7), tmp, 1); vf_count("state:buffer-partly-read", 1); }
+	}
+	else if (kind >= 3) {
+		/* queue of text entries: fresh, partly consumed, exhausted, with an open entry */
+		b = mpt::io::buffer::metatype::create(0);
+		m = b;
+		int n = 1 + (int) vf_below(r, 4), st = (int) vf_below(r, 5);
+		for (int k = 0; k < n; k++) push_entry(b, r, 1);
+		vf_count("value:buffer-queue", 1);
+		if (st == 1 || st == 2) {
+			int adv = (st == 2) ? n : 1 + (int) vf_below(r, (uint32_t) n);
+			for (int k = 0; k < adv; k++) b->advance();
+			vf_count(adv >= n ? "state:buffer-exhausted" : "state:buffer-partly-consumed", 1);
+		}
+		else if (st == 3) { push_entry(b, r, 0); open_entry = 1; vf_count("state:buffer-open-entry", 1); }
+		else if (st == 4) { b->advance(); push_entry(b, r, 0); open_entry = 1; vf_count("state:buffer-open-entry", 1); }
+		else vf_count("state:buffer-fresh", 1);
+	}
+	VF_CHECK(m != 0, K(cur_op, "value-not-created"), "library refused to create a value of kind %d", kind);
+	vf_at("node::set_metatype");
+	vf_count("node::set_metatype:library-value", 1);
+	vf_log("node %d set_metatype(library value kind %d%s)", i, kind, b ? ", buffer" : "");
+	vf_fp_u64(0x540 + (uint64_t) kind);
+	N[i].n->set_metatype(m);
+	if (N[i].meta >= 0) metas[N[i].meta].holders--;
+	N[i].meta = -1; N[i].lib = m; N[i].buf = b; N[i].open = 0;
+	if (b && open_entry) N[i].open = 1;
+}
+
+/* ------------------------------------------------------------------ clone */
+static int pairs[MAXN][2], npairs;
+static void compare_list(const char *op, const mpt::node *s, mpt::node *c, int cpar, int grp, int single, int shallow);
+static void compare_node(const char *op, const mpt::node *s, mpt::node *c, int cpar, int grp, int shallow)
+{
+	int si = idx_of(s);
+	VF_CHECK(idx_of(c) < 0, K(op, "clone-is-existing-node"), "copy of node %d is an existing node", si);
+	VF_CHECK(!mpt::mpt_identifier_inequal(&c->ident, &s->ident), K(op, "clone-name"), "copy of node %d has another name", si);
+	mpt::metatype *sm = s->meta().instance(), *cm = c->meta().instance();
+	int m = -1;
+	VF_CHECK(!sm == !cm, K(op, "clone-value"), "node %d %s a value, its copy %s", si, sm ? "has" : "has no", cm ? "has one" : "has none");
+	VF_CHECK(!sm || sm != cm, K(op, "clone-shares-value"), "copy of node %d holds the same value object", si);
+	if (N[si].meta >= 0) {
+		hmeta *h = static_cast<hmeta *>(cm);
+		m = (h >= metas && h < metas + nmetas) ? (int) (h - metas) : -1;
+		VF_CHECK(m >= 0 && metas[m].clone_of == N[si].meta && !strcmp(metas[m].val, metas[N[si].meta].val), K(op, "clone-value"),
+		         "copy of node %d does not hold a clone of the source's value", si);
+	}
+	else if (sm) {
+		struct sig a, b;
+		signature(sm, &a); signature(cm, &b);
+		VF_CHECK(sig_equal(&a, &b), K(op, "clone-value"), "node %d presents %s, its copy %s", si, sig_show(&a), sig_show(&b));
+		vf_count("monitor:clone-value-compares", 1);
+		if (N[si].buf) vf_count("monitor:clone-buffer-compares", 1);
+	}
+	VF_CHECK(c->parent == (cpar >= 0 ? N[cpar].n : 0), K(op, "clone-parent"), "copy of node %d has parent %p", si, (void *) c->parent);
+	int slot = slot_new(c, KHeap, m);
+	N[slot].par = cpar; N[slot].grp = grp;
+	if (m < 0 && cm) { N[slot].lib = cm; N[slot].buf = dynamic_cast<mpt::io::buffer::metatype *>(cm); N[slot].open = N[si].open; }
+	if (N[si].buf) VF_CHECK(N[slot].buf != 0 && N[slot].buf != N[si].buf, K(op, "clone-value"), "copy of buffer value of node %d is no independent buffer value", si);
+	pairs[npairs][0] = si; pairs[npairs][1] = slot; npairs++;
+	if (shallow) VF_CHECK(!c->children, K(op, "clone-children"), "shallow copy of node %d has children", si);
+	else {
+		VF_CHECK(!s->children == !c->children, K(op, "clone-children"), "node %d %s children, its copy %s", si, s->children ? "has" : "has no", c->children ? "has" : "has none");
+		if (s->children) compare_list(op, s->children, c->children, slot, grp, 0, 0);
+	}
+	vf_count("monitor:clone-node-compares", 1);
+}
+static void compare_list(const char *op, const mpt::node *s, mpt::node *c, int cpar, int grp, int single, int shallow)
+{
+	mpt::node *prev = 0;
+	for (;;) {
+		if (!s && !c) break;
+		VF_CHECK(s && c, K(op, "clone-length"), "%s list ends early", s ? "copied" : "source");
+		VF_CHECK(c->prev == prev, K(op, "clone-prev"), "copy of node %d: prev is not the copy of the predecessor", idx_of(s));
+		compare_node(op, s, c, cpar, grp, shallow);
+		prev = c;
+		if (single) { VF_CHECK(!c->next, K(op, "clone-length"), "single copy has a successor"); break; }
+		s = s->next; c = c->next;
+	}
+}
+static int subtree_size(const mpt::node *n)
+{
+	int c = 1;
+	for (const mpt::node *k = n->children; k; k = k->next) c += subtree_size(k);
+	return c;
+}
+static int op_clone(vf_rng *r)
+{
+	static const char *opn[] = { "node_clone", "list_clone", "tree_clone" };
+	static const char *api[] = { "mpt_node_clone", "mpt_list_clone", "mpt_tree_clone" };
+	int kind = (int) vf_below(r, 3), i = -1, size = 0, depth2 = 0;
+	/* prefer sources that hold (or contain) buffer values */
+	if (vf_chance(r, 2, 3)) {
+		int c[MAXN], k = 0;
+		for (int j = 0; j < nn; j++) if (N[j].alive && N[j].buf) c[k++] = j;
+		if (k) { i = c[vf_below(r, (uint32_t) k)]; for (int up = (int) vf_below(r, 3); up-- && kind && N[i].par >= 0; ) i = N[i].par; }
+	}
+	if (i < 0) i = (int) vf_below(r, (uint32_t) nn);
+	if (i >= nn || !N[i].alive) return 0;
+	mpt::node *n = N[i].n, *ret;
+	if (kind == 1 && vf_chance(r, 1, 2)) { while (n->prev) n = n->prev; i = idx_of(n); }
+	if (kind == 0) size = 1;
+	else if (kind == 2) size = subtree_size(n);
+	else for (const mpt::node *k = n; k; k = k->next) size += subtree_size(k);
+	if (alive_count() + size > LIVE_MAX + 6 || nn + size > MAXN - 8 || nmetas + size > MAXM - 8) return 0;
+	if (kind) for (const mpt::node *k = (kind == 1) ? n : n->children; k; k = k->next) if (k->children) depth2 = 1;
+	cur_op = opn[kind];
+	vf_at(api[kind]);
+	vf_count(api[kind], 1);
+	vf_log("%s(%d) size %d", cur_op, i, size);
+	vf_fp_u64(0x800 + (uint64_t) kind * 64 + (uint64_t) size);
+	ret = (kind == 0) ? mpt::mpt_node_clone(n) : (kind == 1) ? mpt::mpt_list_clone(n) : mpt::mpt_tree_clone(n);
+	VF_CHECK(ret != 0, K(cur_op, "null"), "returned NULL for node %d (size %d)", i, size);
+	VF_CHECK(!ret->parent && !ret->prev, K(cur_op, "clone-linked"), "copy is linked to parent/prev");
+	npairs = 0;
+	compare_list(cur_op, n, ret, -1, next_grp++, kind != 1, kind == 0);
+	if (depth2) vf_count("state:clone-depth2", 1);
+	/* state that no reader sees: an entry that is still open must be open in the copy too;
+	 * after both are terminated they present the same again */
+	for (int k = 0; k < npairs; k++) {
+		int si = pairs[k][0], ci = pairs[k][1];
+		struct sig a, b;
+		if (!N[si].buf || !N[si].open || !N[ci].open) continue;
+		if (N[si].buf->push(0, 0) < 0 || N[ci].buf->push(0, 0) < 0) vf_fail(K(cur_op, "buffer-push-refused"), "termination of the open entry refused (node %d / copy)", si);
+		N[si].open = N[ci].open = 0;
+		signature(N[si].lib, &a); signature(N[ci].lib, &b);
+		VF_CHECK(sig_equal(&a, &b), K(cur_op, "clone-value"), "after terminating the open entry node %d presents %s, its copy %s", si, sig_show(&a), sig_show(&b));
+		vf_count("monitor:clone-open-entry-compares", 1);
+	}
+	/* independence: change the source's buffer value, the copy keeps what it presented
+	 * (and the other way round); an open entry must be open in the copy as well */
+	int bp[MAXN], nb = 0;
+	for (int k = 0; k < npairs; k++) if (N[pairs[k][0]].buf) bp[nb++] = k;
+	if (nb) {
+		int k = bp[vf_below(r, (uint32_t) nb)], si = pairs[k][0], ci = pairs[k][1];
+		struct sig s0, c0, s1, c1;
+		signature(N[ci].lib, &c0);
+		int did = consume(si, r);
+		signature(N[ci].lib, &c1);
+		VF_CHECK(sig_equal(&c0, &c1), K(cur_op, "clone-not-independent"), "copy of node %d changed from %s to %s when the source value was %s", si, sig_show(&c0), sig_show(&c1),
+		         did ? "consumed/extended" : "asked to advance");
+		signature(N[si].lib, &s0);
+		consume(ci, r);
+		signature(N[si].lib, &s1);
+		VF_CHECK(sig_equal(&s0, &s1), K(cur_op, "clone-not-independent"), "node %d changed from %s to %s when its copy was consumed/extended", si, sig_show(&s0), sig_show(&s1));
+		vf_count("monitor:clone-independence-checks", 1);
+	}
+	return depth2 ? 2 : 1;
 }
 
 /* ----------------------------------------------------------------- helpers */
@@ -421,8 +671,8 @@ static int scoped(vf_rng *r, int pos)
 	return top;
 }
 
-enum { ONewHeap, ONewMember, OAttach, OUnlink, ODtor, ODtorLinked, OScoped, OSetMeta, OAssignRef, OClear, OCDestroy, OData, OCount };
-static const uint8_t weights[OCount] = { 10, 10, 22, 4, 6, 10, 8, 3, 4, 2, 3, 2 };
+enum { ONewHeap, ONewMember, OAttach, OUnlink, ODtor, ODtorLinked, OScoped, OSetMeta, OAssignRef, OClear, OCDestroy, OData, OSetLib, OConsume, OClone, OCount };
+static const uint8_t weights[OCount] = { 10, 10, 22, 4, 6, 10, 8, 3, 4, 2, 3, 2, 9, 5, 10 };
 
 extern "C" uint64_t vf_cases(void) { return vf_thorough ? 1000000 : 60000; }
 
@@ -487,7 +737,7 @@ extern "C" void vf_case(uint64_t idx, vf_rng *r)
 			N[i].n->set_metatype(m >= 0 ? &metas[m] : 0);
 			if (N[i].meta >= 0) metas[N[i].meta].holders--;
 			if (m >= 0) metas[m].holders++;
-			N[i].meta = m;
+			N[i].meta = m; N[i].lib = 0; N[i].buf = 0; N[i].open = 0;
 			done = 1;
 			break; }
 		case OAssignRef: {
@@ -517,7 +767,7 @@ extern "C" void vf_case(uint64_t idx, vf_rng *r)
 			}
 			if (N[i].meta >= 0) metas[N[i].meta].holders--;
 			metas[m].holders++;
-			N[i].meta = m;
+			N[i].meta = m; N[i].lib = 0; N[i].buf = 0; N[i].open = 0;
 			done = 1;
 			break; }
 		case OClear:
@@ -553,6 +803,27 @@ extern "C" void vf_case(uint64_t idx, vf_rng *r)
 			}
 			done = 1;
 			break; }
+		case OSetLib:
+			i = pick(r, 0, 0);
+			if (i < 0) break;
+			set_lib_value(r, i);
+			done = 1;
+			break;
+		case OConsume: {
+			int c[MAXN], k = 0;
+			for (j = 0; j < nn; j++) if (N[j].alive && N[j].buf) c[k++] = j;
+			if (!k) break;
+			i = c[vf_below(r, (uint32_t) k)];
+			cur_op = "buffer_consume";
+			vf_at("io::buffer");
+			vf_log("consume/extend buffer value of node %d", i);
+			vf_fp_u64(0x5C0);
+			consume(i, r);
+			done = 1;
+			break; }
+		case OClone:
+			done = op_clone(r);
+			break;
 		case OData: {
 			i = pick(r, 0, 0);
 			if (i < 0) break;
@@ -561,6 +832,7 @@ extern "C" void vf_case(uint64_t idx, vf_rng *r)
 			vf_at("node::data");
 			vf_count("node::data", 1);
 			const char *d = N[i].n->data(&len);
+			if (N[i].lib) { done = 1; break; }
 			if (N[i].meta < 0) VF_CHECK(!d, K(cur_op, "phantom"), "node %d without value returns data", i);
 			else VF_CHECK(d && !strcmp(d, metas[N[i].meta].val), K(cur_op, "value"), "node %d: data() does not return the value text", i);
 			done = 1;
